@@ -867,6 +867,19 @@ def qasm_key(spec, cat, objs):
         if len(set(names)) < len(names):
             small = shrink(spec, lambda sp: ("differs", "", None) if (lambda o: o[0] == "differs" and len({m.register_name for m in o[2][0].measurements}) < len(o[2][0].measurements))(qasm_outcome(sp)) else ("other", "", None), "differs")
             return "qasm:differs:duplicate_register_name", small
+        c2 = objs[2]
+        ra = [(k, tuple(v)) for k, v in c.measurement_tuples.items()]
+        rb = [(k, tuple(v)) for k, v in c2.measurement_tuples.items()]
+        if ra != rb and [(k, tuple(sorted(v))) for k, v in ra] == [(k, tuple(sorted(v))) for k, v in rb]:
+            # same registers, same qubit sets, another qubit ORDER inside a register
+            def same_kind(sp):
+                o = qasm_outcome(sp)
+                if o[0] != "differs":
+                    return ("other", "", None)
+                x = [(k, tuple(v)) for k, v in o[2][0].measurement_tuples.items()]
+                y = [(k, tuple(v)) for k, v in o[2][2].measurement_tuples.items()]
+                return ("differs", "", None) if x != y and [(k, tuple(sorted(v))) for k, v in x] == [(k, tuple(sorted(v))) for k, v in y] else ("other", "", None)
+            return "qasm:differs:register_qubit_order", shrink(spec, same_kind, "differs")
         for g in c.queue:
             if type(g).__name__ == "M" and g.collapse:
                 return "qasm:differs:collapse_dropped:" + ("explicit" if g.init_kwargs.get("collapse") else "implicit"), spec
@@ -1051,6 +1064,11 @@ def suite_qasm(run, rng, T):
         stats[cat] = stats.get(cat, 0) + 1
         if cat == "unbuildable":
             continue
+        if cat in ("ok", "differs", "import_rejects") and objs and objs[0] is not None:
+            for m in objs[0].measurements:
+                tq = list(m.target_qubits)
+                if len(tq) >= 2 and tq != sorted(tq):
+                    stats["nonascending_registers_exported"] = stats.get("nonascending_registers_exported", 0) + 1
         run.case(["qasm", spec], nontrivial=bool(spec["adds"]))
         if i % 97 == 0 or (origin == "layout" and i % 11 == 0):
             run.sample({"suite": "qasm", "spec": spec, "outcome": cat, "text": objs[1].split("\n")[3:] if objs and objs[1] else None})
@@ -1068,6 +1086,8 @@ def suite_qasm(run, rng, T):
             run.notes.setdefault("model_skipped", []).append(f"q{i}: {type(e).__name__}: {e}"[:200])
     res = batch.flush()
     T["qasm_stats"] = stats
+    run.oblige("the real QASM round trip covers non-ascending multi-qubit registers (compared structurally, independent of the model)",
+               stats.get("nonascending_registers_exported", 0) >= 10, "coverage")
     return batch, res
 
 
